@@ -49,8 +49,8 @@ func classify(prop string, h *History, calls []*CallObs, res *hx.Result) bool {
 		if len(c.Session.Runs()) > maxRuns {
 			maxRuns = len(c.Session.Runs())
 		}
-		res.Dist("status:" + string(c.Session.Status()))
-		if c.Session.Status() == flows.SessionStatusFailed {
+		res.Dist("status:" + c.StatusAfter)
+		if c.StatusAfter == string(flows.SessionStatusFailed) {
 			failed = true
 		}
 		newSteps := 0
